@@ -227,6 +227,27 @@ def rule_advance(ctx, cd):
                 ok3 = got == amount
                 ctx.ob(R, t.rel, f"{lang}: {mname} [{label}]: advance by {amount}", ok3, "" if ok3 else f"advances by {got}")
     ctx.floor(R, n, 20)
+    # what the composite emitter knows about the nested object: its (maximum) size, the constant delimiter header and the bounds
+    # asserted on the reported size are those of the object itself, t.inner_type.  For a delimited type t.bit_length_set describes
+    # the header plus anything up to the extent: sized from it, the asserted bounds reject valid objects and the constant header of a
+    # fixed-size object is wrong.
+    N = cd.N
+    k = 0
+    for lang in ("c", "cpp"):
+        t = cd.tmpl(lang, "ser")
+        mac = cd.ts.macros(t).get("_serialize_composite")
+        if mac is None:
+            raise AnalysisError(f"anchor missing: {lang} _serialize_composite")
+        for g in mac.find_all(N.Getattr):
+            if g.attr != "bit_length_set":
+                continue
+            k += 1
+            base = xs(g.node)
+            ok = base == "t.inner_type"
+            ctx.ob(R, t.rel, f"{lang}: _serialize_composite: sizes and asserted bounds of the nested object come from t.inner_type.bit_length_set", ok,
+                   "" if ok else f"taken from `{base}.bit_length_set`: for a delimited type that set includes the delimiter header and the extent, so the size bounds asserted "
+                   "after the nested call (and the constant header of a fixed-size object) do not describe the object that was serialized", getattr(g, "lineno", None))
+    ctx.floor(R + ":nested-lengths", k, 8)
     # composite (template-local variables are identified by their role in the emitted text, not by their names)
     for lang in ("c", "cpp"):
         t = cd.tmpl(lang, "ser")
